@@ -64,7 +64,10 @@ Record opts := mkO { o_conds : bool; o_auto : bool; o_attrs : bool; o_nested : b
    name is a no-op.  Machines are not queued, so the follow-up event is processed at once. *)
 Record machine := mkM { m_states : list stree; m_trans : list trans; m_initial : name; m_opts : opts;
                         m_acts : list (str * str); m_budget : nat;
-                        m_regen : list str (* callbacks that call model.get_graph(force_new=True) *) }.
+                        m_regen : list str (* callbacks that call model.get_graph(force_new=True) *);
+                        (* transitions declared inside a nested state's definition: the declaring state (scope)
+                           and the transition with names relative to that scope, as the markup lists them *)
+                        m_scoped : list (name * trans) }.
 
 (* ---------------------------------------------------------------- abstract lines *)
 Inductive line :=
@@ -180,7 +183,13 @@ Definition auto_trans (forest : list stree) : list trans :=
 (* transitions of the markup as the graph sees them *)
 Definition shown (m : machine) : list trans :=
   (if o_auto (m_opts m) && o_mauto (m_opts m) then auto_trans (m_states m) else []) ++ m_trans m.
-Definition elements (m : machine) : list trans := shown m ++ ini_trans (m_states m).
+(* BaseGraph._get_elements: a transition found in the scope of a nested state gets the scope's path in front
+   of its source and - unless it is internal - of its destination *)
+Definition prefix_trans (p : name) (t : trans) : trans :=
+  mkT (t_trig t) (t_label t) (p ++ t_src t) (match t_dst t with Some d => Some (p ++ d) | None => None end)
+      (t_conds t) (t_unless t).
+Definition scoped_abs (m : machine) : list trans := map (fun x => prefix_trans (fst x) (snd x)) (m_scoped m).
+Definition elements (m : machine) : list trans := shown m ++ ini_trans (m_states m) ++ scoped_abs m.
 
 (* ---------------------------------------------------------------- edges *)
 Definition dst_of (t : trans) : name := match t_dst t with Some d => d | None => t_src t end.
@@ -316,25 +325,30 @@ Definition conds_ok (t : trans) : bool :=
   forallb (fun c => snd c) (t_conds t) && forallb (fun c => negb (snd c)) (t_unless t).
 
 (* the transitions the machine holds: user transitions and the auto transitions *)
-Definition held (m : machine) : list trans :=
-  (if o_mauto (m_opts m) then auto_trans (m_states m) else []) ++ m_trans m.
+(* the transitions the machine holds, with absolute names, each with the depth of its declaring scope: a
+   transition object keeps the names it was declared with (relative to its scope), and those are the names
+   TransitionGraphSupport._change_state passes to set_previous_transition.  Events declared in a scope are
+   assumed to be declared nowhere else (no mixed-scope precedence, DESIGN D18). *)
+Definition held (m : machine) : list (trans * nat) :=
+  map (fun t => (t, 0)) ((if o_mauto (m_opts m) then auto_trans (m_states m) else []) ++ m_trans m)
+  ++ map (fun x => (prefix_trans (fst x) (snd x), length (fst x))) (m_scoped m).
 
 (* first transition of the event whose checks pass, looked up for the active leaf first and
    then for each of its ancestors (NestedEvent.trigger_nested on a single active branch;
    for a flat machine the path has length 1) *)
-Definition pick_at (ts : list trans) (e : str) (s : name) : option trans :=
-  find (fun t => nl_eqb (t_trig t) e && nl_eqb (t_src t) s && conds_ok t) ts.
-Fixpoint pick_first (ts : list trans) (e : str) (ss : list name) : option trans :=
+Definition pick_at (ts : list (trans * nat)) (e : str) (s : name) : option (trans * nat) :=
+  find (fun x => nl_eqb (t_trig (fst x)) e && nl_eqb (t_src (fst x)) s && conds_ok (fst x)) ts.
+Fixpoint pick_first (ts : list (trans * nat)) (e : str) (ss : list name) : option (trans * nat) :=
   match ss with
   | [] => None
   | s :: r => match pick_at ts e s with Some t => Some t | None => pick_first ts e r end
   end.
-Definition pick (ts : list trans) (e : str) (leaf : name) : option trans :=
+Definition pick (ts : list (trans * nat)) (e : str) (leaf : name) : option (trans * nat) :=
   pick_first ts e (leaf :: prefixes leaf).
 
 (* ---------------------------------------------------------------- histories *)
 Record dstate := mkD { d_m : machine; d_cur : list name; d_sty : styles;
-                       d_last : option name (* source of the last executed state-changing transition *) }.
+                       d_last : option name (* source of the last executed state-changing transition, as declared *) }.
 
 Inductive op :=
 | Ev (e : str)                                   (* model.trigger(e) *)
@@ -347,9 +361,9 @@ Definition init_state (m : machine) : dstate :=
   let cur := enter (m_states m) (m_initial m) in mkD m cur (fresh_styles cur) None.
 
 Definition with_states (m : machine) (f : list stree) : machine :=
-  mkM f (m_trans m) (m_initial m) (m_opts m) (m_acts m) (m_budget m) (m_regen m).
+  mkM f (m_trans m) (m_initial m) (m_opts m) (m_acts m) (m_budget m) (m_regen m) (m_scoped m).
 Definition with_trans (m : machine) (ts : list trans) : machine :=
-  mkM (m_states m) ts (m_initial m) (m_opts m) (m_acts m) (m_budget m) (m_regen m).
+  mkM (m_states m) ts (m_initial m) (m_opts m) (m_acts m) (m_budget m) (m_regen m) (m_scoped m).
 
 Definition opt_match (f : option name) (x : option name) : bool :=
   match f with
@@ -411,11 +425,14 @@ Definition fire_body (call : caller) (budget : nat) (d : dstate) (e : str) : dst
   match d_cur d with
   | [leaf] =>
       match pick (held (d_m d)) e leaf with
-      | Some t =>
+      | Some (t, k) =>
           match t_dst t with
           | Some dst =>
               let m := d_m d in
-              let d0 := mkD m (d_cur d) (mkS [(t_src t, 2)] [(t_src t, dst)]) (Some (t_src t)) in
+              (* the names the transition was declared with *)
+              let lsrc := skipn k (t_src t) in
+              let ldst := skipn k dst in
+              let d0 := mkD m (d_cur d) (mkS [(lsrc, 2)] [(lsrc, ldst)]) (Some lsrc) in
               let st1 := run_cbs call (m_acts m) (m_regen m) (cbs_of (m_states m) (t_src t) s_exit) (d0, budget) in
               let d1 := fst st1 in
               let d2 := mkD (d_m d1) (enter (m_states (d_m d1)) dst) (d_sty d1) (d_last d1) in
